@@ -29,6 +29,9 @@ CONFIGS = [
     ("KEYS", ("k",), True),
     ("KEYS", ("k", "v"), False),
     ("KEYS", ("k", "v"), True),
+    # key arguments declared (e.g. for the running concurrency) while registration concurrency compares ALL arguments
+    ("ARGUMENTS", ("k",), False),
+    ("TASK", ("k",), False),
 ]
 
 
